@@ -25,6 +25,10 @@ def run_models(chk, quick, which=("sched", "pipe")):
             jobs += [("EnkiTS", "EnkiTS_3t.cfg", "holds", "3 threads, capacity 2, 6 indices"),
                      ("EnkiTS", "EnkiTS_3t_full.cfg", "holds", "3 threads, capacity 1 + foreign entry, schedule() task, 5 indices")]
     if "pipe" in which:
+        # coverage beyond the listed properties: the multi-writer intrusive list behind enkiTS's pinned tasks (not reachable
+        # through rkcommon's public tasking API).  TLC refutes NoLoss (a reader that finds the writer between its exchange of
+        # the head and the store of the link drops the rest of the list); recorded as a note, no property is attached to it.
+        jobs += [("IntrusiveList", "IntrusiveList.cfg", "note", "enkiTS LocklessMultiWriteIntrusiveList, 2 writers x 2 nodes: NoDup, OnlyAdded, NoLoss")]
         jobs += [("Pipe", "Pipe_q.cfg" if quick else "Pipe_t.cfg", "holds", "2 slots, writer ops %d, 2 readers: NoDup, OnlyWritten, NoLoss" % (3 if quick else 4)),
                  ("Pipe", "Pipe_neg.cfg", "refuted", "negative control: reader CAS split into load and store -> NoDup")]
 
@@ -38,6 +42,8 @@ def run_models(chk, quick, which=("sched", "pipe")):
             raise InfraError("TLC error in %s/%s: %s" % (module, cfg, r.error[:1500]))
         if expect == "holds":
             chk.require_model_ok(module + "/" + cfg, r, what)
+        elif expect == "note":
+            chk.add_model(module + "/" + cfg, r, what + " -> " + ("holds" if r.ok else "refuted (%s): design-level observation outside the listed properties" % r.violated))
         else:
             if r.ok:
                 raise InfraError("non-vacuity: TLC did not refute the negative control %s" % cfg)
